@@ -687,11 +687,14 @@ def run(ctx):
         shortcut = fn.name == "pow" and isint and (kk == 0 or 0 < kk < 10 or kk == -1)
         krylov = alg in ("Lanczos", "Arnoldi") and not shortcut
         complete = not (krylov and cap == "below")
+        inv_krylov = shortcut and kk == -1 and alg in ("Lanczos", "Arnoldi")     # inv(A, CG | GMRES) with the algorithm's tol / max_iters
+        if inv_krylov and cap == "below":
+            complete = False      # a truncated iterative solve: its accuracy is C06 / C12 / C13's subject
         if complete:
             ref = fn.ref(D) @ X.astype(np.complex128)
             sc = max(1.0, float(np.abs(ref).max()))
             err = float(np.abs(Y - ref).max())
-            tolC = 1e-8 if not krylov else 1e-7
+            tolC = 1e-4 if inv_krylov else (1e-8 if not krylov else 1e-7)
             if not err <= tolC * sc * max(1.0, float(np.linalg.cond(D)) if (fn.domain != "any") else 1.0):
                 bad.append(f"|F@X - f(A)@X| = {err:.3g} (scale {sc:.3g})")
             if fn.name == "sqrt" and not krylov:
